@@ -247,4 +247,326 @@ theorem keptBy_pct100 (R : Int) (h : 0 ≤ R) : keptBy (some (pct 100)) R = R :=
   · omega
   · split <;> omega
 
+/-! ## the workload controller preserves the world invariant -/
+
+theorem effSetting_mrs (wl : Workload) : (effSetting .cloneSet wl).minReadySeconds = wl.minReadySeconds := by
+  simp [effSetting, RV.CtlBlueGreen.initSetting, RV.CtlBlueGreen.emptySetting, RV.CtlBlueGreen.nothingSaved]
+
+theorem userSetting_mrs (u : User) : (userSetting u).minReadySeconds = u.minReadySeconds := by
+  unfold userSetting; rw [effSetting_mrs]; rfl
+
+/-- with the world invariant, a CloneSet on which no pod ever becomes available carries the hold -/
+theorem never_means_hold (u : User) (hu : userOK u = true) (wl : Workload) (h : cfgSaved u wl = true)
+    (hn : wl.minReadySeconds ≥ maxReady) : holdInstalled wl = true := by
+  unfold cfgSaved at h
+  cases hs : wl.saved with
+  | none =>
+    rw [hs] at h
+    simp only [Bool.and_eq_true, decide_eq_true_eq] at h
+    have := congrArg (·.minReadySeconds) h.1
+    simp only [effSetting_mrs, userSetting_mrs] at this
+    unfold userOK at hu
+    simp only [Bool.and_eq_true, decide_eq_true_eq] at hu
+    omega
+  | bad => rw [hs] at h; cases h
+  | some sv =>
+    rw [hs] at h
+    simp only [Bool.and_eq_true] at h
+    exact h.2
+
+/-- the configuration part reads neither the status nor how `spec.replicas` is written down -/
+theorem cfg_congr (u : User) (wl wl' : Workload) (h1 : wl'.replicas = wl.replicas) (h2 : wl'.deleting = wl.deleting)
+    (h3 : wl'.paused = wl.paused) (h4 : wl'.stype = wl.stype) (h5 : wl'.saved = wl.saved) (h6 : wl'.ctl = wl.ctl)
+    (h7 : wl'.ru = wl.ru) (h8 : wl'.minReadySeconds = wl.minReadySeconds) (h9 : wl'.partition = wl.partition) :
+    cfgInv u wl = true → cfgInv u wl' = true := by
+  intro hh
+  rw [← hh]
+  have he : effSetting .cloneSet wl' = effSetting .cloneSet wl := by
+    simp [effSetting, RV.CtlBlueGreen.initSetting, RV.CtlBlueGreen.emptySetting, RV.CtlBlueGreen.nothingSaved, h7, h8]
+  unfold cfgInv cfgBase cfgSaved cfgPart holdInstalled
+  rw [h1, h2, h3, h4, h5, h6, h7, h8, h9, he]
+
+theorem nonneg_nonneg (x : Int) : 0 ≤ nonneg x := by unfold nonneg; split <;> omega
+
+/-- under the hold (`maxUnavailable = 0`) a sync keeps the `R` old pods and never lowers the number of new ones; with nothing
+    wanted and nothing there, nothing appears -/
+theorem heldSync_spec (R want surge old upd : Int) (hs : 0 ≤ surge) (hw : 0 ≤ want) (ho : R ≤ old) (hu : 0 ≤ upd) :
+    (heldSync R want surge 0 old upd).1 = R ∧ upd ≤ (heldSync R want surge 0 old upd).2 ∧
+    (want = 0 → upd = 0 → (heldSync R want surge 0 old upd).2 = 0) := by
+  unfold heldSync
+  dsimp only
+  refine ⟨?_, ?_, ?_⟩
+  · split <;> split <;> omega
+  · split <;> split <;> omega
+  · intro h1 h2; subst h1 h2; split <;> split <;> omega
+
+theorem freeSync_spec (R want upd : Int) (hu : 0 ≤ upd) (hR : 0 ≤ R) :
+    0 ≤ (freeSync R want upd).1 ∧ upd ≤ (freeSync R want upd).2 ∧ want ≤ (freeSync R want upd).2 ∧
+    ((freeSync R want upd).2 < R → (freeSync R want upd).1 = R - (freeSync R want upd).2) ∧
+    (want = 0 → upd = 0 → (freeSync R want upd).2 = 0) := by
+  unfold freeSync nonneg
+  dsimp only
+  refine ⟨?_, ?_, ?_, ?_, ?_⟩
+  · split <;> omega
+  · split <;> omega
+  · split <;> omega
+  · intro h; split <;> split <;> omega
+  · intro h1 h2; subst h1 h2; simp
+
+theorem holdInstalled_unav (wl : Workload) (R : Int) (h : holdInstalled wl = true) :
+    nonneg (scaledV ((RV.CtlBlueGreen.ruUnavailable wl.ru).getD (int 0)) R false) = 0 := by
+  unfold holdInstalled at h
+  simp only [Bool.and_eq_true, decide_eq_true_eq] at h
+  rw [h.1.2]
+  rfl
+
+theorem env_worldInv (u : User) (hu : userOK u = true) (b : BW) (h : worldInv u b = true) : worldInv u (bgEnv b) = true := by
+  unfold worldInv at h
+  cases hb : b.wl with
+  | none => rw [hb] at h; cases h
+  | some wl =>
+    rw [hb] at h
+    simp only [Bool.and_eq_true] at h
+    obtain ⟨hcfg, hpod⟩ := h
+    obtain ⟨c1, c2, c3⟩ := cfgInv_parts u wl hcfg
+    obtain ⟨p1, p2, p3⟩ := podInv_parts u b wl hpod
+    rw [podBasic_iff] at p1
+    obtain ⟨q1, q2, q3, q4⟩ := p1
+    have hu' := hu
+    unfold userOK at hu'
+    simp only [Bool.and_eq_true, decide_eq_true_eq, Bool.not_eq_true'] at hu'
+    obtain ⟨⟨_, hmrs⟩, hR0⟩ := hu'
+    unfold cfgBase at c1
+    simp only [Bool.and_eq_true, decide_eq_true_eq, Bool.not_eq_true'] at c1
+    obtain ⟨⟨⟨hR, _⟩, hpaused⟩, _⟩ := c1
+    unfold cfgPart at c3
+    simp only [Bool.or_eq_true, decide_eq_true_eq, Option.isNone_iff_eq_none] at c3
+    unfold podPart at p3
+    simp only [Bool.or_eq_true, decide_eq_true_eq, Option.isNone_iff_eq_none] at p3
+    unfold bgEnv
+    rw [hb]
+    simp only [hR]
+    split
+    · -- the generation is observed, nothing else
+      unfold worldInv
+      simp only [Bool.and_eq_true]
+      exact ⟨hcfg, pod_patch u b _ wl wl rfl (Or.inl rfl) rfl rfl hpod⟩
+    · split
+      · -- two revisions
+        rename_i hne
+        rw [if_neg (by simp [hpaused])]
+        unfold podKept at p2
+        rw [if_neg hne] at p2
+        simp only [decide_eq_true_eq] at p2
+        have hwant : 0 ≤ u.replicas - keptBy wl.partition u.replicas ∧
+            (wl.partition = some (pct 100) → u.replicas - keptBy wl.partition u.replicas = 0) ∧
+            (wl.partition = none → u.replicas - keptBy wl.partition u.replicas = u.replicas) := by
+          rcases c3 with c3 | c3
+          · rw [c3]; simp [keptBy]; omega
+          · rw [c3, keptBy_pct100 _ hR0]; simp
+        split
+        · -- no pod ever becomes available: the hold is installed
+          rename_i hnever
+          have hh := never_means_hold u hu wl c2 hnever
+          rw [holdInstalled_unav wl _ hh]
+          obtain ⟨s1, s2, s3⟩ := heldSync_spec u.replicas (u.replicas - keptBy wl.partition u.replicas)
+            (nonneg (scaledV ((RV.CtlBlueGreen.ruSurge wl.ru).getD (int 0)) u.replicas true))
+            (wl.status.ready - wl.status.updatedReady) wl.status.updated (nonneg_nonneg _) hwant.1 (by omega) q3
+          generalize heldSync u.replicas (u.replicas - keptBy wl.partition u.replicas)
+            (nonneg (scaledV ((RV.CtlBlueGreen.ruSurge wl.ru).getD (int 0)) u.replicas true)) 0
+            (wl.status.ready - wl.status.updatedReady) wl.status.updated = r at s1 s2 s3
+          unfold worldInv
+          simp only [Bool.and_eq_true]
+          refine ⟨cfg_congr u wl _ hR.symm rfl rfl rfl rfl rfl rfl rfl rfl hcfg, ?_⟩
+          unfold podInv podBasic podKept podPart statusOf
+          simp only [Bool.and_eq_true, decide_eq_true_eq, Bool.or_eq_true, Option.isNone_iff_eq_none, if_neg hne]
+          refine ⟨⟨⟨⟨⟨?_, ?_⟩, ?_⟩, ?_⟩, ?_⟩, ?_⟩
+          iterate 5 (first | trivial | omega)
+          rcases c3 with c3 | c3
+          · exact Or.inl (Or.inl c3)
+          · right
+            rcases p3 with (p3 | p3) | p3
+            · rw [c3] at p3; cases p3
+            · exact absurd p3 hne
+            · exact s3 (hwant.2.1 c3) p3
+        · -- an ordinary minReadySeconds: whatever the partition allows is replaced at once
+          obtain ⟨f1, f2, f3, f4, f5⟩ := freeSync_spec u.replicas (u.replicas - keptBy wl.partition u.replicas) wl.status.updated q3 hR0
+          generalize freeSync u.replicas (u.replicas - keptBy wl.partition u.replicas) wl.status.updated = r at f1 f2 f3 f4 f5
+          unfold worldInv
+          simp only [Bool.and_eq_true]
+          refine ⟨cfg_congr u wl _ hR.symm rfl rfl rfl rfl rfl rfl rfl rfl hcfg, ?_⟩
+          unfold podInv podBasic podKept podPart statusOf
+          simp only [Bool.and_eq_true, decide_eq_true_eq, Bool.or_eq_true, Option.isNone_iff_eq_none]
+          by_cases hprom : r.2 ≥ u.replicas
+          · simp only [if_pos hprom, if_true, decide_eq_true_eq]
+            refine ⟨⟨⟨⟨⟨?_, ?_⟩, ?_⟩, ?_⟩, ?_⟩, ?_⟩
+            iterate 5 (first | trivial | omega)
+            exact Or.inl (Or.inr trivial)
+          · simp only [if_neg hprom, if_neg hne, decide_eq_true_eq]
+            have hz : r.2 = 0 := by
+              rcases c3 with c3 | c3
+              · have := hwant.2.2 c3; omega
+              · rcases p3 with (p3 | p3) | p3
+                · rw [c3] at p3; cases p3
+                · exact absurd p3 hne
+                · exact f5 (hwant.2.1 c3) p3
+            have := f4 (by omega)
+            refine ⟨⟨⟨⟨⟨?_, ?_⟩, ?_⟩, ?_⟩, ?_⟩, ?_⟩
+            iterate 5 (first | trivial | omega)
+            exact Or.inr hz
+      · -- one revision: exactly `replicas` pods
+        rename_i heq
+        have heq' : b.updateRevision = b.currentRevision := by simpa using heq
+        unfold worldInv
+        simp only [Bool.and_eq_true]
+        refine ⟨cfg_congr u wl _ hR.symm rfl rfl rfl rfl rfl rfl rfl rfl hcfg, ?_⟩
+        unfold podInv podBasic podKept podPart
+        simp only [Bool.and_eq_true, decide_eq_true_eq, Bool.or_eq_true, Option.isNone_iff_eq_none, if_pos heq']
+        refine ⟨⟨⟨⟨⟨?_, ?_⟩, ?_⟩, ?_⟩, ?_⟩, ?_⟩
+        iterate 5 (first | trivial | omega)
+        exact Or.inl (Or.inr heq')
+
+/-! ## the admission of a revision preserves the world invariant -/
+
+theorem release_worldInv (u : User) (hu : userOK u = true) (rev : String) (b : BW) (h : worldInv u b = true) :
+    worldInv u (bgRelease rev b) = true := by
+  unfold bgRelease
+  split
+  · exact h
+  · rename_i hrev
+    unfold worldInv at h
+    cases hb : b.wl with
+    | none => rw [hb] at h; cases h
+    | some wl =>
+      rw [hb] at h
+      simp only [Bool.and_eq_true] at h
+      obtain ⟨hcfg, hpod⟩ := h
+      obtain ⟨c1, c2, c3⟩ := cfgInv_parts u wl hcfg
+      obtain ⟨p1, p2, p3⟩ := podInv_parts u b wl hpod
+      rw [podBasic_iff] at p1
+      obtain ⟨q1, q2, q3, q4⟩ := p1
+      have hu' := hu
+      unfold userOK at hu'
+      simp only [Bool.and_eq_true, decide_eq_true_eq, Bool.not_eq_true'] at hu'
+      obtain ⟨⟨_, hmrs⟩, hR0⟩ := hu'
+      have c1' := c1
+      unfold cfgBase at c1'
+      simp only [Bool.and_eq_true, decide_eq_true_eq, Bool.not_eq_true'] at c1'
+      obtain ⟨⟨⟨hR, _⟩, hpaused⟩, _⟩ := c1'
+      unfold podKept at p2
+      have hcap : ∀ x, capAt wl.replicas x = if x > u.replicas then u.replicas else x := by
+        intro x; rw [hR]; rfl
+      dsimp only
+      rw [hcap]
+      unfold worldInv
+      simp only [Bool.and_eq_true]
+      constructor
+      · -- configuration: only the partition changed, to the webhook's 100 %
+        refine cfgInv_of_parts u _ c1 ?_ rfl
+        unfold cfgSaved at c2 ⊢
+        exact c2
+      · unfold podInv podBasic podKept podPart
+        simp only [Bool.and_eq_true, decide_eq_true_eq, Bool.or_eq_true, Option.isNone_iff_eq_none]
+        by_cases hcur : rev = b.currentRevision
+        · -- back to the current revision: its pods are the updated ones
+          have hne : b.updateRevision ≠ b.currentRevision := by rw [← hcur]; exact fun e => hrev e.symm
+          rw [if_neg hne] at p2
+          simp only [decide_eq_true_eq] at p2
+          simp only [if_pos hcur, decide_eq_true_eq]
+          refine ⟨⟨⟨⟨⟨?_, ?_⟩, ?_⟩, ?_⟩, ?_⟩, ?_⟩
+          · exact q1
+          · trivial
+          · split <;> omega
+          · split <;> omega
+          · split <;> omega
+          · exact Or.inl (Or.inr hcur)
+        · simp only [if_neg hcur, decide_eq_true_eq]
+          refine ⟨⟨⟨⟨⟨?_, ?_⟩, ?_⟩, ?_⟩, ?_⟩, ?_⟩
+          · exact q1
+          · trivial
+          · omega
+          · omega
+          · split at p2
+            · simp only [decide_eq_true_eq] at p2; omega
+            · simp only [decide_eq_true_eq] at p2; omega
+          · exact Or.inr trivial
+
+/-! ## the two reconcilers preserve the world invariant -/
+
+theorem setAnno_worldInv (u : User) (a : Bool) (b : BW) (h : worldInv u b = true) : worldInv u (bgSetAnno a b) = true := by
+  unfold bgSetAnno
+  split
+  · exact h
+  · exact h
+
+theorem disown_worldInv (u : User) (b : BW) (h : worldInv u b = true) : worldInv u (bgDisown b) = true := by
+  unfold worldInv at h ⊢
+  unfold bgDisown
+  cases hb : b.wl with
+  | none => rw [hb] at h; cases h
+  | some wl =>
+    rw [hb] at h
+    simp only [Option.map_some, Bool.and_eq_true] at h ⊢
+    obtain ⟨hcfg, hpod⟩ := h
+    split
+    · rename_i hctl
+      obtain ⟨c1, c2, c3⟩ := cfgInv_parts u wl hcfg
+      refine ⟨cfgInv_of_parts u _ c1 ?_ c3, pod_patch u b _ wl _ rfl (Or.inl rfl) rfl rfl hpod⟩
+      -- only a workload with saved settings carries a control-info
+      unfold cfgSaved at c2 ⊢
+      cases hs : wl.saved with
+      | none =>
+        rw [hs] at c2
+        simp only [Bool.and_eq_true, decide_eq_true_eq] at c2
+        rw [c2.2] at hctl; cases hctl
+      | bad => rw [hs] at c2; cases c2
+      | some sv =>
+        rw [hs] at c2
+        exact c2
+    · exact ⟨hcfg, pod_patch u b _ wl _ rfl (Or.inl rfl) rfl rfl hpod⟩
+
+/-- one BatchRelease reconcile over the blue-green CloneSet plane preserves the world invariant -/
+theorem br_worldInv (u : User) (br : BR) (b : BW) (o : StepOutX BGW) (h : worldInv u b = true)
+    (hr : reconcileX (bgPlane .cloneSet) br (bgProj b) = .val o) : worldInv u (bgLand b o.wl) = true := by
+  unfold worldInv at h
+  cases hb : b.wl with
+  | none => rw [hb] at h; cases h
+  | some wl =>
+    rw [hb] at h
+    simp only [Bool.and_eq_true] at h
+    obtain ⟨hcfg, hpod⟩ := h
+    -- what the reconcile can have done to the CloneSet: nothing, or one of the three patches
+    have key : ∃ wl', o.wl.w.wl = some wl' ∧ cfgInv u wl' = true ∧ wl'.status = wl.status ∧
+        (wl'.partition = wl.partition ∨ wl'.partition = none) := by
+      have hpw : (bgProj b).w.wl = some wl := hb
+      rcases reconcileX_world (bgPlane .cloneSet) br (bgProj b) o hr with hw | ⟨m, ms, r, hi⟩ | ⟨m, r, hu⟩ | ⟨r, hf⟩
+      · rw [hw]; exact ⟨wl, hpw, hcfg, rfl, Or.inl rfl⟩
+      · obtain ⟨out, hout, hw', _⟩ := RV.Props.ExecutorX.bg_init_inv .cloneSet _ m ms (bgProj b) o.wl r hi
+        rw [hw']
+        rcases RV.Lemmas.CtlBlueGreen.initialize_wl .cloneSet _ _ _ out hout with ⟨hsame, _⟩ | ⟨wl0, s, hw0, _, hg, _, hnew⟩
+        · exact ⟨wl, hsame.trans hpw, hcfg, rfl, Or.inl rfl⟩
+        · rw [hpw] at hw0; cases hw0
+          exact ⟨_, hnew, cfg_initPatch u wl _ s hcfg hg, rfl, Or.inl rfl⟩
+      · obtain ⟨out, hout, hw', _⟩ := RV.Props.ExecutorX.bg_upgrade_inv .cloneSet _ m (bgProj b) o.wl r hu
+        rw [hw']
+        rcases RV.Lemmas.CtlBlueGreen.upgrade_world .cloneSet _ _ _ out hout with ⟨hsame, _⟩ | ⟨wl0, R, e, hw0, _, _, _, hv, _, _, _, hnew⟩
+        · rw [hsame]; exact ⟨wl, hpw, hcfg, rfl, Or.inl rfl⟩
+        · rw [hpw] at hw0; cases hw0
+          rw [hnew]
+          exact ⟨_, rfl, cfg_upgradePatch u wl e hcfg hv, rfl, Or.inr rfl⟩
+      · obtain ⟨out, hout, hw', _⟩ := RV.Props.ExecutorX.bg_fin_inv .cloneSet _ (bgProj b) o.wl r hf
+        rw [hw']
+        rcases RV.Lemmas.CtlBlueGreen.finalize_wl .cloneSet _ _ _ out hout with hsame | ⟨wl0, s, hw0, hres, _, hg, hnew⟩
+        · exact ⟨wl, hsame.trans hpw, hcfg, rfl, Or.inl rfl⟩
+        · rw [hpw] at hw0; cases hw0
+          have hnew' : out.world.wl = some (RV.CtlBlueGreen.finalizePatch .cloneSet s wl) := by
+            rcases hnew with h | h
+            · exact h
+            · rw [RV.Lemmas.CtlBlueGreen.forgetWl_finalizePatch_cs] at h; exact h
+          exact ⟨_, hnew', cfg_finalizePatch u wl s hcfg hres hg, rfl, Or.inl rfl⟩
+    obtain ⟨wl', hw', hcfg', hst, hpart⟩ := key
+    unfold worldInv bgLand
+    simp only [hw', Bool.and_eq_true]
+    exact ⟨hcfg', pod_patch u b _ wl wl' hst hpart rfl rfl hpod⟩
+
 end RV.Lemmas.ClosedLoopBG
